@@ -3,9 +3,15 @@
 (* C18 (wrapping) - trace validation of recorded calls of the real         *)
 (* pmutt.io.cantera.obj_to_cti.  One NDJSON line per call:                 *)
 (*   ev     "wrap"                                                         *)
-(*   toks   the tokens of the value handed in, in order, as character      *)
-(*          codes (list/tuple: the elements; set: the elements in the      *)
-(*          set's iteration order; dict: "key:value"; str: its words)      *)
+(*   toks   the tokens of the value as the caller built it, in order, as   *)
+(*          character codes (list/tuple: the elements; set: the elements   *)
+(*          in the set's iteration order; dict: "key:value"; str: words)   *)
+(*   before, after  the same projection of the value OBJECT read just      *)
+(*          before and just after this call.  A trace id is a history of   *)
+(*          calls on one object (the same list wrapped again, at other     *)
+(*          widths; a phase written twice), so a call that alters the      *)
+(*          caller's value fails InputUntouched on that line and           *)
+(*          TokensPreserved on the later lines.                            *)
 (*   ll, ml line_len and max_line_len                                      *)
 (*   raised "" or the exception class name                                 *)
 (*   out    the returned text as character codes                           *)
@@ -21,9 +27,12 @@ VARIABLES l, st
 
 Clauses(e) ==
    CASE e.ev = "wrap" ->
-          IF e.raised # "" THEN {"Raises"}
-          ELSE LET ok == CtiDelimited(e.out) IN
-               WrapVerdict(e.toks, e.ll, e.ml, ok, IF ok THEN CtiLayoutOf(e.out) ELSE <<>>)
+          (IF e.before = e.toks /\ e.after = e.toks THEN {} ELSE {"InputUntouched"})
+          \cup
+          (IF e.raised # "" THEN {"Raises"}
+           ELSE IF ~CtiFramed(e.out) THEN {"Delimited"}
+                ELSE (IF CtiDelimited(e.out) THEN {} ELSE {"Delimited"})      \* a stray quote inside
+                     \cup WrapVerdict(e.toks, e.ll, e.ml, TRUE, CtiLayoutOf(e.out)))
      [] OTHER -> {"UnknownEvent"}
 
 Step(e) == IF st.tid = e.tid THEN [tid |-> e.tid, n |-> st.n + 1] ELSE [tid |-> e.tid, n |-> 1]
